@@ -96,6 +96,8 @@ def base64_cases(ctx, cases):
             p.case("b64decfmt %s %d" % (hexs(t), len(t) + 4), dict(rc=0, n=len(src), out=src), "base64:decode_fmt:" + j)
         t = bytes(c["j1"]); syms = bytes(c["syms"])
         p.case("b64encopy %s %d" % (hexs(t), len(t) + 1), dict(rc=0, n=len(syms), out=syms), "base64:en_copy")
+        t = bytes(c["j3"])       # invariant FilterLaw: OnlySyms(J3(E)) = StripPad(E)
+        p.case("b64encopy %s %d" % (hexs(t), len(t) + 1), dict(rc=0, n=len(encnp), out=encnp), "base64:en_copy")
     return p
 
 def hex_cases(ctx, cases):
